@@ -908,6 +908,140 @@ pub fn run_t(seed: u64, l: &mut Local) {
     }
 }
 
+/// N3b against a prober of another make: its SRV may carry a priority and a weight (this crate always sends 0 0).
+/// RDATA is compared byte by byte, so priority decides before weight, weight before port, port before target.
+pub fn foreign_srv_case(seed: u64, l: &mut Local) {
+    let mut rng = Rng::new(seed);
+    let mine = Claim { port: *rng.pick(&[80u16, 9000, 0x7fff]), txt: wire::txt_encode(&[(b"k".to_vec(), Some(b"v".to_vec()))]), host: "contested-host.local.".into(), v4: vec![[10, 0, 0, 5]], v6: vec![] };
+    let (prio, weight) = *rng.pick(&[(0u16, 5u16), (0, 0xffff), (1, 0), (3, 7), (0, 0)]);
+    let their_port = *rng.pick(&[1u16, 80, 0xffff]);
+    let at = *rng.pick(&[1u64, 100, 251, 400, 501, 700]);
+    let jitter = *rng.pick(&[0u64, 7, 130]);
+    let mut w = World::new(seed);
+    w.set_stepping(Stepping::Lazy);
+    let h = w.add_host_with(scen::single_v4(), |g| g.jitter = [jitter, jitter].into_iter().collect());
+    w.set_ip_check_interval(h, 3600);
+    let t0 = w.now();
+    let addrs: Vec<IpAddr> = vec!["10.0.0.5".parse().unwrap()];
+    let mut reg = World::reg_info(T_TY, T_INST, &mine.host, &addrs, mine.port, &[]);
+    reg.txt = vec![("k".to_string(), Some(b"v".to_vec()))];
+    w.register(h, reg);
+    w.run_until(t0 + jitter + at);
+    let inst = scen::wire_name(&format!("{T_INST}.{T_TY}"));
+    let host = scen::wire_name(&mine.host);
+    let mut q = Message::query();
+    q.questions.push(wire::question(&inst, wire::T_ANY));
+    // same TXT; the SRV differs
+    q.authorities.push(wire::rec(&inst, wire::T_TXT, 1, 4500, RData::Txt(mine.txt.clone())));
+    q.authorities.push(wire::rec(&inst, wire::T_SRV, 1, 120, RData::Srv { priority: prio, weight, port: their_port, target: host.clone() }));
+    let idx = w.trace.entries.len();
+    w.inject_msg(h, 2, scen::peer4(77), &q);
+    let t_shown = w.now();
+    w.run_until(t_shown + 4000);
+    l.evaluations += 1;
+    l.distinct.insert(util::fnv_str(&format!("T-foreign|{prio}|{weight}|{their_port}|{}|{at}", mine.port)));
+    if w.trace.deaths().any(|d| matches!(d.ev, Ev::Death { panicked: true, .. })) {
+        l.inconclusive.push(format!("daemon died in a C08 tiebreak scenario (seed {seed})"));
+        return;
+    }
+    let txs = scen::tx_msgs(&w.trace, 0);
+    let probes_after: Vec<u64> = txs.iter().filter(|tx| tx.idx > idx && tx.v4 && tx.msg.is_query() && scen::has_question(tx.msg, &inst, wire::T_ANY)).map(|tx| tx.t - t_shown).collect();
+    let announced_at = txs.iter().find(|tx| tx.idx > idx && tx.v4 && tx.msg.is_response() && tx.multicast && tx.msg.answers.iter().any(|r| r.rtype == wire::T_SRV)).map(|tx| tx.t - t_shown);
+    let yields = match probes_after.first() {
+        Some(d) if *d <= 250 => Some(false),
+        Some(d) if *d >= 1000 && *d <= 1001 => Some(true),
+        None if announced_at.is_some_and(|a| a <= 250) => Some(false),
+        _ => None,
+    };
+    let ours = (0u16, 0u16, mine.port);
+    let theirs = (prio, weight, their_port);
+    if ours == theirs {
+        return;
+    }
+    l.act("N3b-foreign-srv");
+    let must_yield = ours < theirs;
+    if yields != Some(must_yield) {
+        l.violate(
+            Violation::new("N3", "N3b/wrong-verdict-against-srv-with-priority-or-weight", format!("our SRV is 0 0 {} and the other prober's {prio} {weight} {their_port} (same target, same TXT): we {} yield, the daemon {}", mine.port, if must_yield { "must" } else { "must not" }, match yields { Some(true) => "yielded", Some(false) => "went on", None => "did neither on schedule" }))
+                .with(json!({"probes_after_ms": probes_after, "announced_after_ms": announced_at, "trace": w.trace.render_tail(30)})),
+        );
+    }
+}
+
+// ---------------------------------------------------------------------------
+// Part R2: a name that finished probing is defended, also a renamed one, also before the service is announced
+//
+// The instance name loses to a conflicting response and becomes 'x (2)'; the host name loses a simultaneous-probe
+// comparison and has to wait a second, so 'x (2)' finishes probing while the service cannot be announced yet.
+// Another prober for 'x (2)' with other data must be answered (our records for the name) at once.
+
+pub fn defend_renamed_case(seed: u64, l: &mut Local) {
+    let mut rng = Rng::new(seed);
+    let mut w = World::new(seed);
+    w.set_stepping(Stepping::Lazy);
+    let h = w.add_host_with(scen::single_v4(), |g| g.jitter_const = Some(0));
+    w.set_ip_check_interval(h, 3600);
+    let t0 = w.now();
+    let label = *rng.pick(&["contested", "Front Desk", "x (7)"]);
+    let addrs: Vec<IpAddr> = vec!["10.0.0.5".parse().unwrap()];
+    let reg = World::reg_info(T_TY, label, "defended-host.local.", &addrs, 80, &[("k", Some(b"v"))]);
+    w.register(h, reg);
+    let inst = scen::wire_name(&format!("{label}.{T_TY}"));
+    let host = scen::wire_name("defended-host.local.");
+    // 1. somebody else holds the instance name
+    let at1 = 20 + rng.below(200);
+    w.run_until(t0 + at1);
+    let mut m = Message::response();
+    m.answers.push(wire::srv(&inst, 120, 9, &scen::wire_name("somebody-else.local.")));
+    m.answers[0].class |= wire::FLUSH;
+    w.inject_msg(h, 2, scen::peer4(77), &m);
+    // 2. a competing prober for the host name whose data sort later: we wait a second
+    let at2 = at1 + 10 + rng.below(150);
+    w.run_until(t0 + at2);
+    let mut q = Message::query();
+    q.questions.push(wire::question(&host, wire::T_ANY));
+    q.authorities.push(wire::a(&host, 120, [10, 0, 0, 200]));
+    w.inject_msg(h, 2, scen::peer4(78), &q);
+    // 3. inside the window (the renamed instance is done ~750 ms after the rename, the host not before at2 + 1750)
+    let at3 = at1 + 1000 + rng.below(at2 + 1700 - (at1 + 1000));
+    w.run_until(t0 + at3);
+    let new_label = next_instance_label(label.as_bytes());
+    let mut new_inst = inst.clone();
+    new_inst[0] = new_label.clone();
+    let mut q = Message::query();
+    q.questions.push(wire::question(&new_inst, wire::T_ANY));
+    q.authorities.push(wire::srv(&new_inst, 120, 65000, &scen::wire_name("zz-third.local.")));
+    let idx = w.trace.entries.len();
+    w.inject_msg(h, 2, scen::peer4(79), &q);
+    w.settle();
+    let t3 = w.now();
+    w.run_until(t0 + 6000);
+    l.evaluations += 1;
+    l.distinct.insert(util::fnv_str(&format!("R2|{label}|{}|{}|{}", at1 / 50, (at2 - at1) / 50, (at3 - at1) / 100)));
+    if w.trace.deaths().any(|d| matches!(d.ev, Ev::Death { panicked: true, .. })) {
+        l.inconclusive.push(format!("daemon died in a C08 defence scenario (seed {seed})"));
+        return;
+    }
+    let txs = scen::tx_msgs(&w.trace, 0);
+    // the scenario is what it is meant to be only if the daemon did rename to the expected name and had not yet
+    // announced when the third party probed (otherwise nothing is judged here: parts R and D cover those)
+    let probed_new = txs.iter().any(|tx| tx.idx < idx && tx.msg.is_query() && scen::has_question(tx.msg, &new_inst, wire::T_ANY));
+    let announced_before = txs.iter().any(|tx| tx.idx < idx && tx.msg.is_response() && tx.multicast && tx.msg.answers.iter().any(|r| r.rtype == wire::T_PTR && r.ttl > 0));
+    let last_probe_new = txs.iter().filter(|tx| tx.idx < idx && tx.msg.is_query() && scen::has_question(tx.msg, &new_inst, wire::T_ANY)).map(|tx| tx.t).max().unwrap_or(0);
+    let probes_new = txs.iter().filter(|tx| tx.idx < idx && tx.msg.is_query() && scen::has_question(tx.msg, &new_inst, wire::T_ANY)).count();
+    if !probed_new || announced_before || probes_new < 3 || t3 < last_probe_new + 260 {
+        return;
+    }
+    l.act("N4-defend-renamed");
+    let defended = txs.iter().any(|tx| tx.idx > idx && tx.t == t3 && tx.msg.is_response() && tx.msg.records().any(|r| wire::names_eq_nocase(&r.name, &new_inst) && matches!(r.rdata, RData::Srv { .. } | RData::Txt(_))));
+    if !defended {
+        l.violate(
+            Violation::new("N4", "N4/finished-renamed-name-not-defended-before-announcement", format!("the instance name had become {} and finished probing; a third party probing for it with other data {} ms later got no answer (the service was not announced yet: its host name was still waiting after a lost comparison)", wire::escaped(&new_inst), t3 - last_probe_new))
+                .with(json!({"trace": scen::witness_window(&w.trace, t0, t3 + 50, 60)})),
+        );
+    }
+}
+
 // ---------------------------------------------------------------------------
 // Part D: two or three daemons claim the same names on one loss-free link
 
@@ -1091,5 +1225,13 @@ pub fn run(report: &Report, tier: &Tier) {
         0..=3 => run_r(util::mix(seed, 0xC08_0000 + i), l),
         4..=8 => run_t(util::mix(seed, 0xC08_0000 + i), l),
         _ => run_d(i / 10, thorough, seed, l),
+    });
+    let n2: u64 = if tier.thorough { 80_000 } else { 1_200 };
+    run_parallel(report, n2, threads(), tier.budget_s * 0.1, |i, l| {
+        if i % 2 == 0 {
+            defend_renamed_case(util::mix(seed, 0xC08_A000 + i), l);
+        } else {
+            foreign_srv_case(util::mix(seed, 0xC08_B000 + i), l);
+        }
     });
 }
